@@ -174,6 +174,11 @@ def run_check(P, tier, seed):
     impl, model, errs = execute(P, cases, ctx)
     disagreements, failures = judge(P, cases, impl, model, ctx)
     stats = {"evaluations": len(cases), "dist": dist, "errs": errs[:5]}
+    if hasattr(P, "extra_stats"):
+        try:
+            dist.update(P.extra_stats(cases, impl))
+        except Exception:
+            pass
 
     # ---- 5. verdict
     reported = set()
